@@ -511,7 +511,9 @@ class Wiring(Contract):
         elif w in ("init_scp_params", "init_cs_params"):
             args = [params, {}, {}, ci]
         elif w == "init_stored_food":
-            args = [params, {"ADD_STORED_FOOD": self.flag}, ci, oc]
+            # the dictionary already carries the stock regime chosen by the scenario (here: no storage between years)
+            self.regime = unwrap(S.bool("STORE_FOOD_BETWEEN_YEARS"))
+            args = [params, {"ADD_STORED_FOOD": self.flag, "STORE_FOOD_BETWEEN_YEARS": self.regime}, ci, oc]
         else:
             args = [params, {}, ci]
         return dict(args=args, ci=ci, tci=tci, oc=oc)
@@ -536,7 +538,10 @@ class Wiring(Contract):
             sf = r[1]
             base = names[:1] == ["StoredFood.__init__"] and log[0][1] == [ci, a["oc"]] and r[0]["stored_food"] is sf \
                 and r[0]["SF_FRACTION_FAT"] is sf.attrs["SF_FRACTION_FAT"] and r[0]["SF_FRACTION_PROTEIN"] is sf.attrs["SF_FRACTION_PROTEIN"] \
-                and r[0]["STORED_FOOD_WASTE_RETAIL"] is ci.entries["WASTE_RETAIL"]
+                and r[0]["STORED_FOOD_WASTE_RETAIL"] is ci.entries["WASTE_RETAIL"] \
+                and set(r[0].keys()) == {"ADD_STORED_FOOD", "STORE_FOOD_BETWEEN_YEARS", "stored_food", "SF_FRACTION_FAT", "SF_FRACTION_PROTEIN",
+                                         "STORED_FOOD_WASTE_RETAIL"} \
+                and r[0]["STORE_FOOD_BETWEEN_YEARS"] is self.regime and r[0]["ADD_STORED_FOOD"] is self.flag  # frame: nothing else written
             if self.flag:
                 ok = base and names == ["StoredFood.__init__", "StoredFood.calculate_stored_food_to_use"] and log[1][1] == [5] \
                     and sf.attrs["initial_available"] == ("MARKER", "StoredFood.calculate_stored_food_to_use", 2)
